@@ -181,7 +181,7 @@ pub fn run_semantic(prop: &str, trace: &Trace, env: &Env, opts: &SemOpts) -> Run
     for (ei, ev) in trace.events.iter().enumerate() {
         let t = ev.clock.base();
         if utc_days(t) != utc_days(last_t) { rep.count("clock.advance_over_midnight"); }
-        if t != last_t { rep.count("clock.advance_between_ops"); }
+        if t > last_t { rep.count("clock.advance_between_ops"); } else if t < last_t { rep.count("clock.step_back_between_ops"); }
         last_t = t;
         match &ev.op {
             Op::Admin(op) => {
